@@ -500,6 +500,15 @@ def install(I):
                 raise Unmodelled('symbolic range bound in ' + f)
             return t.as_long()
         n = len(seq.fields)
+        if kind == 'Range' and isinstance(r, Agg) and any(int_of(I, st, x).concrete() is None for x in r.fields):
+            # symbolic bounds: the same case split as slice::get, an out-of-range request panics
+            outs = []
+            for o in m_get_range(I, st, f, [args[0], Agg('Range', list(r.fields))], fr):
+                if isinstance(o.val, Enum) and o.val.variant == 'None':
+                    outs += panic(I, o.st, 'range index out of range for slice of length %d' % n)
+                else:
+                    outs.append(Outcome(o.st, 'ret', o.val.fields[0]))
+            return outs
         fs = [conc(x) for x in (r.fields if isinstance(r, Agg) else ())]
         if kind == 'Range':
             lo, hi = fs[0], fs[1]
